@@ -406,3 +406,98 @@ Definition run_case (p : path) (a : advert) (k : mech_kind) (c : cred)
            (fault : option (nat * reaction)) : state nat :=
   let s := drive nat (shape_start k) (shape_next k) p a nat (shape_srv k c) 16 fault 0 init (Some O) in
   if handed_out s then first_use nat (shape_start k) (shape_next k) p a s K_Metadata 1 else s.
+
+(* ------------------------------------------------------------------ *)
+(* The read of ONE raw (handshake v0) authentication response, with an allocation counter
+   in the manner of Model/Schema.v's d_alloc: what the client allocates for the response
+   body, in bytes.  The input is what the broker puts on the wire after the client's raw
+   bytes: the 4-byte big-endian length prefix (already decoded: [announced], an int32) and
+   the payload bytes that actually arrive ([avail]), after which the connection is closed
+   or stays silent until the connection's read deadline expires. *)
+Inductive ending := EndClose | EndSilence.
+
+Inductive rr_outcome :=
+| RROk (payload : bytes)
+| RREof              (* io.EOF: no payload byte arrived *)
+| RRUnexpectedEof    (* io.ErrUnexpectedEOF: fewer bytes than announced arrived *)
+| RRProtocol         (* negative length: "invalid SASL authentication response length" *)
+| RRTimeout.         (* the read deadline expired *)
+
+Record rr_result := mkRR { rr_out : rr_outcome; rr_received : N; rr_alloc : N }.
+
+(* io.ReadAll: b := make([]byte, 0, 512); every Read appends into b[len:cap]; whenever
+   len(b) == cap(b) after a Read the slice is grown by append(b, 0)[:len(b)].  A Read never
+   goes past cap, so len passes through cap exactly; the allocations therefore depend only
+   on the number of bytes read.  [grow cap] is the capacity append chooses (runtime.growslice:
+   at least 1.25 x, at most 2 x for cap >= 256, rounded up to a size class).
+   Returns (final capacity, bytes allocated in total). *)
+Fixpoint readall (grow : N -> N) (l : bytes) (len cap total : N) {struct l} : N * N :=
+  match l with
+  | [] => (cap, total)
+  | _ :: t =>
+      let len' := (len + 1)%N in
+      if (len' =? cap)%N
+      then let c' := grow cap in readall grow t len' c' (total + c')%N
+      else readall grow t len' cap total
+  end.
+
+(* runtime.growslice for byte slices of cap >= 256, before the size-class rounding *)
+Definition go_grow (c : N) : N := (c + (c + 768) / 4)%N.
+
+(* protocol/saslauthenticate readResp (Transport path, after commit d96111f):
+     respLen < 0 -> protocol.Errorf(...)
+     data, err := io.ReadAll(io.LimitReader(read, int64(respLen)))
+     len(data) < respLen -> io.EOF when len(data) == 0, else io.ErrUnexpectedEOF *)
+Definition transport_raw_read (grow : N -> N) (announced : Z) (avail : bytes) (e : ending) : rr_result :=
+  if announced <? 0 then mkRR RRProtocol 0 0
+  else
+    let complete := announced <=? Z.of_nat (length avail) in
+    let got := if complete then firstn (Z.to_nat announced) avail else avail in
+    let n := N.of_nat (length got) in
+    let alloc := snd (readall grow got 0 512 512) in
+    if complete then mkRR (RROk got) n alloc
+    else match e with
+         | EndClose => mkRR (if (n =? 0)%N then RREof else RRUnexpectedEof) n alloc
+         | EndSilence => mkRR RRTimeout n alloc
+         end.
+
+(* conn.go saslAuthenticate, raw branch (Dialer path): readInt32; respLen < 0 -> error;
+   readNewBytes(&c.rbuf, n, n): n <= 0 reads nothing, else b = make([]byte, n) — the
+   ANNOUNCED length is allocated — and io.ReadFull (io.EOF when nothing arrived). *)
+Definition conn_raw_read (announced : Z) (avail : bytes) (e : ending) : rr_result :=
+  if announced <? 0 then mkRR RRProtocol 0 0
+  else if announced =? 0 then mkRR (RROk []) 0 0
+  else
+    let complete := announced <=? Z.of_nat (length avail) in
+    let got := if complete then firstn (Z.to_nat announced) avail else avail in
+    let n := N.of_nat (length got) in
+    let alloc := Z.to_N announced in
+    if complete then mkRR (RROk got) n alloc
+    else match e with
+         | EndClose => mkRR (if (n =? 0)%N then RREof else RRUnexpectedEof) n alloc
+         | EndSilence => mkRR RRTimeout n alloc
+         end.
+
+Definition raw_read (p : path) (announced : Z) (avail : bytes) (e : ending) : rr_result :=
+  match p with
+  | Dialer => conn_raw_read announced avail e
+  | Transport => transport_raw_read go_grow announced avail e
+  end.
+
+(* how the outcome of the read enters the transition system *)
+Definition reaction_of_rr (o : rr_outcome) : reaction :=
+  match o with
+  | RROk payload => ROk payload
+  | RREof => RClose
+  | RRUnexpectedEof | RRTimeout => RMalformed
+  | RRProtocol => RNegLen
+  end.
+
+Definition adv_v0 : advert := {| hs_max := Some 0; auth_max := None |}.
+
+(* a scripted run over a v0 handshake whose [step]-th reaction is the raw response
+   (announced, avail, e) *)
+Definition run_raw_case (p : path) (k : mech_kind) (c : cred) (step : nat)
+           (announced : Z) (avail : bytes) (e : ending) : state nat * rr_result :=
+  let r := raw_read p announced avail e in
+  (run_case p adv_v0 k c (Some (step, reaction_of_rr (rr_out r))), r).
